@@ -235,6 +235,7 @@ def run(chk):
         scenario(chk, rng, work, i)
         if chk.n_found() >= 3:
             break
+    long_lived(chk, rng, work)
     # independence of a copy under the full container engine: mutate the copy, then the original
     from basictdf import Tdf
     for j in range(5 if chk.tier == "quick" else 60):
@@ -258,6 +259,71 @@ def run(chk):
         if open(fname(work, 2), "rb").read() != copy_now:
             chk.violation("C17: mutating the original changed the copy", {"scenario": "independence: copy, mutate original", "seed": [chk.seed, j]}, True)
             break
+
+
+def long_lived(chk, rng, work):
+    """one Tdf object kept across changes of its file made by someone else, and copies taken in mid-session"""
+    from basictdf import Tdf
+    from basictdf.tdfBlock import BlockType
+    for j in range(6 if chk.tier == "quick" else 60):
+        for p in PATHS:
+            if os.path.exists(fname(work, p)):
+                os.unlink(fname(work, p))
+        put(work, 1, tdf_bytes(rng, work, rng.randrange(0, 3)))
+        t = Tdf(fname(work, 1))
+        chk.note_case(("long-lived object", j), True)
+        chk.count("long-lived object scenario")
+        try:
+            with t:
+                n0 = len(t.entries)
+            t.has_events
+        except Exception as e:
+            chk.violation("C17: a valid file cannot be opened twice through one object: " + common.exc_info(e), {"scenario": "long-lived"}, True)
+            return
+        # someone else replaces the file's content with something that is not a TDF file
+        junk = bytes(rng.getrandbits(8) for _ in range(16)) + open(fname(work, 1), "rb").read()[16:]
+        put(work, 1, junk if j % 2 else b"not a tdf file at all" * 10)
+        got = []
+        for how in ("with", "has_events", "blocks"):
+            try:
+                if how == "with":
+                    with t:
+                        got.append((how, len(t.entries)))
+                elif how == "has_events":
+                    got.append((how, t.has_events))
+                else:
+                    got.append((how, len(t.blocks)))
+            except Exception:
+                pass
+            h = getattr(t, "handler", None)
+            if h is not None and not h.closed:
+                h.close()
+            t._inside_context = False
+        if got:
+            chk.violation("C17: a file that no longer starts with the TDF signature was opened through an existing object and yielded %r" % (got,),
+                          {"scenario": "open once, file replaced by non-TDF bytes, open again through the same object"}, True)
+            return
+        # a copy taken in the middle of a write session is byte-identical to the original
+        put(work, 2, tdf_bytes(rng, work, 0))
+        ev = container.small_block("EV", rng, 1)
+        ft = container.small_block("FT", rng, 1)
+        try:
+            with scripted_clock():
+                Clock.now = T0 + 7000
+                with Tdf(fname(work, 2)).allow_write() as f:
+                    f.add_block(ev.build(), "mid")
+                    f.copy(fname(work, 3))
+                    mid = open(fname(work, 3), "rb").read()
+                    logical = [container.entry_tuple(e) for e in f.entries]
+        except Exception as e:
+            chk.violation("C17: copy inside a write session failed: " + common.exc_info(e), {"scenario": "copy in mid-session"}, True)
+            return
+        orig = open(fname(work, 2), "rb").read()
+        if mid != orig:
+            k = next((i for i, (x, y) in enumerate(zip(mid, orig)) if x != y), min(len(mid), len(orig)))
+            chk.violation("C17: a copy taken right after add_block (inside the write session) differs from the original at byte %d "
+                          "(%d vs %d bytes)" % (k, len(mid), len(orig)), {"scenario": "add_block then copy inside one write session"}, True)
+            return
 
 
 def replay(chk, path):
